@@ -208,6 +208,13 @@ def run_rsa(ctx):
                         tok = {"payload": pay, "protected": prot, "signature": G.b64u(sg)}
                         ops.append(("jws.ver", {"jws": tok, "jwk": K.public(padded), "all": False, "_refuse": True, "_site": "rsa:modulus",
                                                 "_why": why + " (verify, genuine signature)"}))
+    # a private member that is present but is not decodable text is not "absent": the key is refused as a whole
+    big = K.pool(ctx.jose)["RSA-2048"]
+    for m in ("d", "p", "dq", "n"):
+        for junk in ("!!", "A", 5, None, ["AA"]):
+            bad = dict(big, **{m: junk})
+            ops.append(("jws.sig", {"jws": {"payload": pay}, "sig": {"protected": {"alg": "RS256"}}, "jwk": bad, "_refuse": True, "_site": "rsa:member-undecodable",
+                                    "_why": "RSA key whose %s is %s (sign)" % (m, json.dumps(junk))}))
     real, model = cmp(ctx, ops, mask)
     # whatever jose signs with an admissible key must verify (and tokens it made with small keys do not exist)
     ctx.count("rsa-sizes", len(keys))
